@@ -340,6 +340,18 @@ func Seeds(w *ev.Writer, o Opts) error {
 			n++
 		}
 	}
+	for b := 1; b <= 5; b++ {
+		sk := realBlockSeeds(fmt.Sprintf("%s/tlb/testdata/block-%d/block.bin", repoDir(), b))
+		for _, ty := range []string{"tlb.Block", "tlb.BlockExtra", "tlb.McBlockExtra"} {
+			if v := sk[ty]; v != nil && len(v.all()) <= 20 {
+				m := v.table()
+				m["type"] = ty
+				m["seed"] = n
+				w.Emit(m)
+				n++
+			}
+		}
+	}
 	for _, rc := range smallDecodeOnly(o.Seed) {
 		if v, err := rc.build(); err == nil && len(v.all()) <= 16 {
 			m := v.table()
@@ -352,7 +364,7 @@ func Seeds(w *ev.Writer, o Opts) error {
 	for tries := 0; n < want && tries < 20*want; tries++ {
 		name := names[rng.Intn(len(names))]
 		if tries < 12 { // the types the helpers decode are always among the seeds
-			name = []string{"tlb.VmStack", "tlb.Transaction", "tlb.Account", "tlb.Message", "tlb.BlockHeader", "tlb.ShardStateUnsplit"}[tries%6]
+			name = []string{"tlb.VmStack", "tlb.Transaction", "tlb.Account", "tlb.Message", "tlb.McBlockExtra", "tlb.ShardStateUnsplit"}[tries%6]
 		}
 		v := valid(rng, tlbx.Registry[name])
 		if v == nil {
@@ -379,6 +391,74 @@ func Seeds(w *ev.Writer, o Opts) error {
 	}
 	w.Emit(ev.M{"k": "End", "events": w.N})
 	return nil
+}
+
+// skel cuts a skeleton out of a real cell tree: the cells on the paths named by spec are kept, every other subtree is
+// replaced by a pruned branch carrying its hash and depth (as a lite server's proof would). spec maps a reference
+// index to the spec of that child; -1 stands for "every reference"; a nil spec keeps the cell and prunes all it references.
+type skelSpec map[int]skelSpec
+
+func skel(c *boc.Cell, spec skelSpec, depthOf func(*boc.Cell) int) *node {
+	bs := c.RawBitString()
+	n := &node{bits: bs.BinaryString(), x: int(c.CellType())}
+	for i, r := range c.Refs() {
+		sub, ok := spec[i]
+		if !ok {
+			sub, ok = spec[-1]
+		}
+		if ok {
+			n.refs = append(n.refs, skel(r, sub, depthOf))
+			continue
+		}
+		h, err := r.Hash()
+		if err != nil {
+			h = make([]byte, 32)
+		}
+		d := depthOf(r)
+		n.refs = append(n.refs, &node{bits: byteBits(1, 1) + byteBits(h...) + byteBits(byte(d>>8), byte(d)), x: 1})
+	}
+	return n
+}
+
+// realBlockSeeds: from a real block of the fixtures, the block with its extra and (masterchain) custom part kept, the
+// BlockExtra and the McBlockExtra on their own - types whose random values do not fit a cell, so that no encoding of
+// them can be recorded from the encoder.
+func realBlockSeeds(path string) map[string]*node {
+	raw, err := os.ReadFile(path)
+	if err != nil {
+		return nil
+	}
+	roots, err := boc.DeserializeBoc(raw)
+	if err != nil || len(roots) != 1 || len(roots[0].Refs()) != 4 {
+		return nil
+	}
+	depth := map[*boc.Cell]int{}
+	var dep func(c *boc.Cell) int
+	dep = func(c *boc.Cell) int {
+		if d, ok := depth[c]; ok {
+			return d
+		}
+		d := 0
+		for _, r := range c.Refs() {
+			if k := dep(r) + 1; k > d {
+				d = k
+			}
+		}
+		depth[c] = d
+		return d
+	}
+	out := map[string]*node{}
+	root := roots[0]
+	extra := root.Refs()[3]
+	custom := skelSpec{-1: nil} // McBlockExtra: its own references kept, what they reference pruned
+	exSpec := skelSpec{}
+	if len(extra.Refs()) == 4 {
+		exSpec[3] = custom
+		out["tlb.McBlockExtra"] = skel(extra.Refs()[3], custom, dep)
+	}
+	out["tlb.BlockExtra"] = skel(extra, exSpec, dep)
+	out["tlb.Block"] = skel(root, skelSpec{3: exSpec}, dep)
+	return out
 }
 
 func repoDir() string {
